@@ -142,11 +142,16 @@ func H_C02_paths(path int) {
 	vReach("nonzero-lower", n > 0 && df&FormatLowerCase != 0)
 }
 
+// every long form, written out bit by bit (not through the package's own FormatLong / FormatLong9x unions, which
+// are part of what is being checked)
+const allLongForms = FormatLong4 | FormatLong9 | FormatLong40 | FormatLong90 | FormatLong400 | FormatLong900
+
 //verif:harness C02 quick verb=0..3
 func H_C02_verbs(verb int) {
 	vMergeOutcomes()
 	n := Number(vU64("n"))
 	vAssume(n < 2000)
+	vAssert("FormatLong-is-every-long-form", FormatLong == allLongForms)
 	var sv vState
 	var f Format
 	switch verb {
@@ -158,10 +163,10 @@ func H_C02_verbs(verb int) {
 		f = FormatLowerCase
 	case 2:
 		n.Format(&sv, 'L')
-		f = FormatLong
+		f = allLongForms
 	case 3:
 		n.Format(&sv, 'l')
-		f = FormatLong | FormatLowerCase
+		f = allLongForms | FormatLowerCase
 	}
 	ok, val := refCanon(sv.buf, f)
 	vAssert("verb-format", ok && val == uint64(n))
